@@ -88,6 +88,9 @@ func c45OptionsBase() world.Options {
 			// creation-date checks (txn within TXN_TIME_TOLERANCE of the block's wall-clock creation
 			// date) can never reject: the alphabet's transactions carry the worker's start time
 			"server_chain.transaction.timeout":                  1000000000,
+			// generateBlock collects pool transactions under a wall-clock budget (180 ms in
+			// docker.local); raised so that the wall clock cannot cut the pool iteration short
+			"server_chain.block.proposal.max_wait_time": "10m",
 			"server_chain.smart_contract.setting_update_period": 2,
 		},
 		SC: map[string]any{
@@ -237,6 +240,7 @@ func c45() {
 	run.Assumptions = []string{
 		"common.Now() is the wall clock: the chain's transaction time tolerance is raised to 1e9 s and the alphabet's transactions carry the worker's start time, so no creation-date check can reject; the wall clock enters only the block creation date and the hashes of the generator's built-in transactions, which the oracle does not look at (too-old / too-new transactions are outside the alphabet)",
 		"pool = distinct transactions (a real pool is keyed by hash); 'duplicate nonce' is two different transactions with the same nonce",
+		"generateBlock's wall-clock budget for collecting pool transactions (block.proposal.max_wait_time) is raised to 10 min, so the pool iteration is never cut short by the clock",
 		"generator and verifier share one process: node.Self is switched between miner identities, the chain's block/round registries are reset before each step and the verifier gets a fresh state cache; the node DB holds only genesis, so both sides read the previous state from the same in-memory tries",
 		"storage settings: challenge_generation_gap=1, block_reward.trigger_period=2, setting_update_period=2, so that round 1 carries payFees+generate_challenge and round 2 all four built-in transactions",
 	}
